@@ -52,7 +52,20 @@ def qualify (schema name : String) : M String := do
 def getTable (full : String) : M Table := do
   match (← getW).table? full with
   | some t => pure t
-  | none => throwPg "42P01" s!"relation \"{full}\" does not exist"
+  | none =>
+    -- first reference to a bucket that does not exist yet: see `World.bucketTemplate`
+    let w ← getW
+    let sch := schemaOf full
+    match w.bucketTemplate with
+    | some tpl =>
+      if !sch.isEmpty && sch != "public" && !w.buckets.contains sch then
+        let w' := instantiateBucket w tpl sch
+        setW w'
+        match w'.table? full with
+        | some t => pure t
+        | none => throwPg "42P01" s!"relation \"{full}\" does not exist"
+      else throwPg "42P01" s!"relation \"{full}\" does not exist"
+    | none => throwPg "42P01" s!"relation \"{full}\" does not exist"
 
 def putTable (t : Table) : M Unit := modifyW (·.setTable t)
 
@@ -104,6 +117,11 @@ def advisoryUnlock (key : Int) : M Bool := do
 def scanTable (t : Table) (alias : String) : M (List Scope) := do
   let v ← curView
   let cols := t.colNames
+  match (← get).epq with
+  | some (tn, rid, vals) =>
+    if tn == t.name then
+      return [{ alias := alias, cols := cols, vals := vals, src := some (t.name, rid) }]
+  | none => pure ()
   pure ((t.scan v).map (fun r => { alias := alias, cols := cols, vals := r.vals, src := some (t.name, r.rid) }))
 
 /-- newest version of logical row `rid` that the transaction would update now
